@@ -154,6 +154,11 @@ fn run_history(rep: &mut Report, u: &mut U, first: &Address, history: &str, tran
         }
         holders.push(next);
     }
+    // the role must still be with the same holder after a long time without any call
+    if u.advance(1_300_000) && getter(u) != *holders.last().unwrap() {
+        rep.violation(&format!("role-changed-by-passing-time:{}", what), format!("history {}", history));
+        return None;
+    }
     Some(holders)
 }
 
